@@ -7,6 +7,7 @@
 #include <cstdlib>
 #include <map>
 #include <string>
+#include <vector>
 
 #include "Compiler/include/gen.hpp"
 #include "VM/include/instr.hpp"
@@ -112,7 +113,12 @@ struct GenState {
       BreakPoint bp = this->out.line_info[this->getNextPos() - 1];
       this->out.line_info.erase(
           this->out.line_info.find(this->getNextPos() - 1));
-      this->out.potential_breaks.erase(this->out.potential_breaks.find(bp));
+      // unregister only the removed site; other sites of the same line stay
+      auto entry = this->out.potential_breaks.find(bp);
+      if (entry != this->out.potential_breaks.end()) {
+        std::erase(entry->second, this->getNextPos() - 1);
+        if (entry->second.empty()) this->out.potential_breaks.erase(entry);
+      }
       out.code.pop_back();
     }
   }
